@@ -56,3 +56,12 @@ func (a *verifMemApp) CompressionFormat() int     { return 0 }
 func (a *verifMemApp) CompressionLevel() int      { return 0 }
 
 func verifEOF() error { return io.EOF }
+
+// verifLogger is a logger.Logger that drops everything (formatting is never the subject).
+type verifLogger struct{}
+
+func (verifLogger) Errorf(string, ...interface{})   {}
+func (verifLogger) Warningf(string, ...interface{}) {}
+func (verifLogger) Infof(string, ...interface{})    {}
+func (verifLogger) Debugf(string, ...interface{})   {}
+func (verifLogger) Close() error                    { return nil }
